@@ -350,6 +350,8 @@ def run(chk):
     chk.guard(rule_r2, chk, m)
     chk.guard(rule_r3, chk, m)
     chk.guard(rule_r4, chk, m)
+    from .. import args as _args
+    chk.guard(_args.apply, chk, "C11-R90", {'dates'}, 1)
     chk.assumptions = [
         "years 0..9999 (four-digit SDMX years); segments within 1..f (C09-R3)",
         "third-party date strings are outside the clause; only strings the library itself writes",
